@@ -100,12 +100,12 @@ def _one(code, pct, base, amount, retained=False):
 
 
 W_VAT = {"categories": [_one("VAT", "21%", "100.00", "21.00")], "sum": "21.00"}
-# (a) C20-merge-shares-operand-rows: the operand lists the same category twice; Merge appended the first
+# C20-merge-shares-operand-rows (a): the operand lists the same category twice; Merge appended the first
 # occurrence with the operand's own rate objects and then added the second occurrence into them
 W_IRPF2 = {"categories": [_one("IRPF", "15%", "100.00", "15.00", True), _one("IRPF", "15%", "100.00", "15.00", True)], "sum": "-30.00"}
 # the same without a repeated category: the result shared the operand's rates (recalculating the result rewrote them)
 W_IRPF = {"categories": [_one("IRPF", "15%", "100.00", "14.00", True)], "sum": "-14.00"}
-# (b) C20-merge-precise-amounts: base 100.004 recalculated in EUR, rule precise: precise 21.001 / presented 21.00
+# C20-merge-shares-operand-rows (b), precise figures: base 100.004 recalculated in EUR, rule precise: precise 21.001 / presented 21.00
 W_FINE = {"categories": [_one("VAT", "21%", "100.004", "21.00")], "sum": "21.00"}
 CORPUS = [
     ("merge", [("tt", W_VAT), ("tt", W_IRPF2)]),
